@@ -1371,11 +1371,11 @@ namespace awkward {
 
     ContentPtrVec contents;
     for (auto ptr : tocarry) {
-      contents.push_back(std::make_shared<IndexedArray64>(
+      contents.push_back(IndexedArray64(
         Identities::none(),
         util::Parameters(),
         Index64(ptr, 0, combinationslen, kernel::lib::cpu),   // DERIVE
-        shallow_copy()));
+        shallow_copy()).simplify_optiontype());
     }
     return std::make_shared<RecordArray>(Identities::none(),
                                          parameters,
